@@ -149,3 +149,7 @@ def check(prog: Program, rep):
     constraints_as_safe_sequences_rule(prog, rep, "C05.R10")
     from rules.plumb import constraint_edges_trusted_rule
     constraint_edges_trusted_rule(prog, rep, "C05.R10")
+    from rules.values import generating_set_as_weights as _gsw
+    from rules.common import RuleProxy as _RPg
+    _gsw(prog, _RPg(rep, "C05.R10"), "C03.R9", "MinFlowDecomp")
+    _gsw(prog, _RPg(rep, "C05.R10"), "C04.R10", "MinFlowDecompCycles")
